@@ -361,3 +361,47 @@ func SortedKeys(m map[string]interface{}) []string {
 	sort.Strings(keys)
 	return keys
 }
+
+// Cyclic reports whether v (maps with string keys and slices, nested)
+// contains a map or slice that contains itself.
+func Cyclic(v interface{}) bool {
+	return cyclic(v, map[uintptr]bool{})
+}
+
+func cyclic(v interface{}, path map[uintptr]bool) bool {
+	var ptr uintptr
+	switch vv := v.(type) {
+	case map[string]interface{}:
+		if vv == nil {
+			return false
+		}
+		ptr = reflect.ValueOf(vv).Pointer()
+	case []interface{}:
+		if len(vv) == 0 {
+			return false
+		}
+		ptr = reflect.ValueOf(vv).Pointer()
+	default:
+		return false
+	}
+	if path[ptr] {
+		return true
+	}
+	path[ptr] = true
+	defer delete(path, ptr)
+	switch vv := v.(type) {
+	case map[string]interface{}:
+		for _, x := range vv {
+			if cyclic(x, path) {
+				return true
+			}
+		}
+	case []interface{}:
+		for _, x := range vv {
+			if cyclic(x, path) {
+				return true
+			}
+		}
+	}
+	return false
+}
